@@ -85,28 +85,28 @@ impl VariableShapeTensorField {
         write!(&mut ext_metadata, "{{")?;
 
         if let Some(permutation) = self.permutation.as_ref() {
-            if first_field {
-                first_field = false;
+            if !first_field {
                 write!(&mut ext_metadata, ",")?;
             }
+            first_field = false;
             write!(&mut ext_metadata, "\"permutation\":")?;
             write_list(&mut ext_metadata, permutation.iter())?;
         }
 
         if let Some(dim_names) = self.dim_names.as_ref() {
-            if first_field {
-                first_field = false;
+            if !first_field {
                 write!(&mut ext_metadata, ",")?;
             }
+            first_field = false;
             write!(&mut ext_metadata, "\"dim_names\":")?;
             write_list(&mut ext_metadata, dim_names.iter().map(DebugRepr))?;
         }
 
         if let Some(uniform_shape) = self.uniform_shape.as_ref() {
-            if first_field {
-                first_field = false;
+            if !first_field {
                 write!(&mut ext_metadata, ",")?;
             }
+            first_field = false;
             write!(&mut ext_metadata, "\"uniform_shape\":")?;
             write_list(
                 &mut ext_metadata,
